@@ -179,7 +179,11 @@ def gen_base(rng, tier='quick'):
         prog = gen.gen_program(rng, **INJ)
     elif profile == 'rec':
         deep = rng.random() < (0.05 if tier == 'quick' else 0.15)
-        prog = recgen.gen_rec(rng, allow_deep=deep, deep_only=deep)
+        # (kinds: without the two C03-specific shapes - a rule that reaches its component
+        # only under a negation is itself a base case, and a member whose only live rule
+        # needs the other member is dead code at small depths: K6 / K3 bookkeeping assumes
+        # neither)
+        prog = recgen.gen_rec(rng, allow_deep=deep, deep_only=deep, kinds=recgen.KINDS_BASIC)
         if rng.random() < P_OBSERVER:
             add_observer(rng, prog)
     else:
